@@ -417,6 +417,20 @@ Route(entry, s) ==
        ELSE IF s[1] = LZ11.type THEN Machine(LZ11, 0, FALSE)
        ELSE Direct(Cls("err", <<>>, IF n < 4 THEN "short" ELSE "type"))
 
+\* 32-bit length header (zero 24-bit field, then the length as a little-endian u32).  The statement leaves open
+\* whether an entry point accepts this form ("open"/"ext" above).  But when the tokens after the 8-byte header are a
+\* conforming encoding of exactly the announced number of bytes, the stream encodes that data under the accepting
+\* reading and is "the rest" under the other: Ok(encoded data) or Err; Ok(anything else) satisfies neither.
+\* (Lengths >= 2^30 stay open: TLC integers.)
+ExtApplies(F, s, off) == /\ F.ext /\ Len(s) - off >= 8 /\ s[off + 1] = F.type /\ U24(s, off + 2) = 0
+                         /\ s[off + 8] < 64
+ExtDecode(F, s, off) == RunIter(F, s, [Dec0(off) EXCEPT !.st = "run", !.pos = off + 9, !.why = "Header",
+                                          !.declared = U24(s, off + 5) + 16777216 * s[off + 8]])
+ExtRefine(r, s, c) ==
+  IF r.run /\ c.cls = "open" /\ c.why = "ext" /\ ExtApplies(r.F, s, r.off)
+  THEN LET x == ExtDecode(r.F, s, r.off) IN IF x.st = "done" THEN Cls("okerr", x.out, "extdone") ELSE c
+  ELSE c
+
 \* class given the route and the decoder's terminal state
 ClassOf(r, d) == IF ~r.run THEN r.direct
                  ELSE IF r.weak THEN Weaken(OfDecode(d)) ELSE OfDecode(d)
